@@ -613,6 +613,13 @@ for _enc, _body in (("utf-7", "x = a + b\ny = '+-'\n"), ("hz", "x = ~a\ny = '~{'
         _t = "# coding: %s\n%s" % (_enc, _body)
         FIXED.append({"data": _t.replace("\n", _nl).encode(_enc), "op": 1, "new": _t, "stream": "fixed-non-ascii-superset"})
         FIXED.append({"data": _t.replace("\n", _nl).encode(_enc), "op": 0, "new": _t + "z = 3\n", "stream": "fixed-non-ascii-superset"})
+# PEP 263 allows a dot in the declared name and the codec registry resolves it (iso-8859.15 -> iso8859_15): a
+# dotted name of a codec that is NOT rope's latin-1 fallback, so a truncated name shows in what is read
+for _name, _enc, _lit in (("iso-8859.15", "iso-8859-15", "€"), ("windows.1251", "cp1251", "жук")):
+    for _nl in ("\n", "\r\n"):
+        _t = "# coding: %s\ns = '%s'\n" % (_name, _lit)
+        FIXED.append({"data": _t.replace("\n", _nl).encode(_enc), "op": 1, "new": _t + "y = 1\n", "stream": "fixed-dotted-codec"})
+        FIXED.append({"data": _t.replace("\n", _nl).encode(_enc), "op": 0, "new": _t + "z = '%s'\n" % _lit, "stream": "fixed-dotted-codec"})
 for _ck in HOSTILE_COOKIES:
     for _enc, _nl in (("latin-1", "\n"), ("utf-8", "\r\n")):
         _t = _ck + "\ns = 'é'\n"
